@@ -9,7 +9,7 @@ Directives (each starts a line, leading blanks allowed):
         copy a whole file (D6: inner attributes dropped)
   //@fn <selector> [nopub] [drop=debug,trace]
   //@ret <name>                       name the return value  (-> T   becomes   -> (name: T))
-  //@attrs / //@spec / //@loop N / //@before N `toks` / //@after N `toks`
+  //@attrs / //@spec / //@enter / //@loop N / //@before N `toks` / //@after N `toks`
         the following template lines (until the next //@ directive) are ghost text inserted
         before the fn / before the body's `{` / before the N-th loop body's `{` /
         before|after the N-th occurrence of the token sequence in the body
@@ -401,6 +401,9 @@ def expand(template_text, backend="verus"):
                         inserts_before.setdefault(it.core, []).append(txt)
                     elif section == "spec":
                         inserts_before.setdefault(o, []).append("\n" + txt)
+                    elif section == "enter":
+                        # first thing inside the body (robust against edits of the body: no token anchor needed)
+                        inserts_after.setdefault(o, []).append("\n" + txt)
                     elif section == "loop":
                         lp = _loops(toks, o + 1, c)
                         n = int(secargs[0])
@@ -421,7 +424,7 @@ def expand(template_text, backend="verus"):
                         flush()
                         if p2[0] == "end": i += 1; break
                         if p2[0] == "ret": ret_name = p2[1]; section = None
-                        elif p2[0] in ("attrs", "spec", "loop", "before", "after"):
+                        elif p2[0] in ("attrs", "spec", "enter", "loop", "before", "after"):
                             section = p2[0]; secargs = s2[3 + len(p2[0]):].strip().split(" ")
                         else:
                             raise TemplateError("unknown directive in fn block: " + s2)
